@@ -387,46 +387,33 @@ def run(ctx):
         rfields = [x["name"] for x in P.records[rname]["fields"]]
         r1.instance("%s over struct %s" % (f.qname, rname))
         pa, pb = f.params[0]["name"], f.params[1]["name"]
-        compared = set()
-        bare = []
-        # conjunct atoms: conditions of && blocks and the final returned expression
-        atoms = []
-        for nid, n in f.nodes.items():
-            if n["k"] == "return" and n.get("sub") is not None:
-                st = [n["sub"]]
-                while st:
-                    x = f.strip(st.pop())
-                    m = f.nodes[x]
-                    if m["k"] == "bin" and m["op"] == "&&":
-                        st += [m["l"], m["r"]]
-                    else:
-                        atoms.append(x)
-        for x in atoms:
-            m = f.nodes[x]
-            if m["k"] == "bin" and m["op"] == "==":
-                l, r = f.sn(m["l"]), f.sn(m["r"])
-                if l["k"] == "member" and r["k"] == "member" and l["field"] == r["field"] and \
-                        {f.sn(l["base"]).get("name"), f.sn(r["base"]).get("name")} == {pa, pb}:
-                    compared.add(l["field"])
-                    continue
-            if m["k"] == "call" and m.get("callee") in ("memcmp", "strcmp"):
-                continue
-            bare.append(x)
-        nret = sum(1 for m in f.nodes.values() if m["k"] == "return")
-        if nret != 1 or len(atoms) < 2:
+        # decided exactly: the function is interpreted with both structs equal, and once per field with only that field
+        # differing - whatever its shape (one conjunction, early returns, an identity shortcut, a chain of ifs)
+        from .. import interp as I
+
+        def fold(diff):
+            it = I.Interp(P)
+            it.opaque_decls = True
+            it.mem = {}
+            for fld in rfields:
+                it.mem["%s->%s" % (pa, fld)] = 7
+                it.mem["%s->%s" % (pb, fld)] = 8 if fld == diff else 7
+            return it.call(f, [1, 2])
+        try:
+            same = fold(None)
+            missing = [fld for fld in rfields if fold(fld)]
+        except I.Unsupported as e:
             # loops over containers (attr_path_equal, xcm_attr_map_equal) are C19's subject
             r1.instances.pop()
-            r1.note("%s: not a single conjunction of field comparisons (not this rule's shape)" % f.qname)
+            r1.note("%s: not foldable (%s): not this rule's shape" % (f.qname, e))
             continue
-        for x in bare:
-            r1.violation("%s:bare:%s" % (f.name, f.show(x)[:40]), "%s uses `%s` as a truth value instead of comparing the two structs' fields"
-                         % (f.name, f.show(x)), loc=f.loc(x))
-        missing = [x for x in rfields if x not in compared]
-        if missing:
-            r1.violation("%s:missing:%s" % (f.name, ",".join(missing)), "%s does not compare field(s) %s: a change of only that option goes unnoticed"
+        if not same:
+            r1.violation("%s:equal-structs-differ" % f.name, "%s answers false for two structs whose fields are all equal" % f.name, loc=f.file)
+        elif missing:
+            r1.violation("%s:missing:%s" % (f.name, ",".join(missing)), "%s answers `equal` for two structs that differ in %s only: a change of only that option goes unnoticed"
                          % (f.name, missing), loc=f.file)
-        if not bare and not missing:
-            r1.ok("%s compares all %d fields" % (f.qname, len(rfields)), "field coverage")
+        else:
+            r1.ok("%s: equal for equal structs, different as soon as any one of the %d fields differs" % (f.qname, len(rfields)), "exact folding, one run per field")
     r1.floor(1, "struct equality functions")
 
     # ------------------------------------------------------------------ R2
